@@ -106,7 +106,7 @@ impl ::vstd::std_specs::cmp::PartialEqSpecImpl for TypePath {
 
 
 //@fn attr.rs MemberAttrs::ghost
-//@props C05,C06,C12,C16
+//@props C05,C06,C12,C16,C01
 //@spec
     ensures r == spec_ghost(self, *container_ty, *kind), // #dedicated-then-default-for-kind
 //@closure 0
@@ -253,7 +253,7 @@ impl ::vstd::std_specs::cmp::PartialEqSpecImpl for TypePath {
 //@end
 
 //@fn attr.rs ParentChildField::get_for_kind
-//@props C05,C03
+//@props C05,C03,C07,C01
 //@spec
     ensures r == spec_pcf_for_kind(self, *kind), // #first-applicable-else-into
     decreases (if k_is_into_existing(*kind) { 1int } else { 0int }),
